@@ -1,6 +1,7 @@
 import ShellOp.Proofs.Snapshot
 import ShellOp.Model.FactoryStore
 import ShellOp.Proofs.SnapFilter
+import ShellOp.Model.BindingLookup
 /-!
 # C02 — Synchronization objects and snapshots equal the set of matching objects
 
@@ -1024,5 +1025,206 @@ theorem reused_buffer_witness :
   decide
 
 end FifthWave
+
+/-! ## 9. sixth wave: binding name ↦ monitor (`SnapshotsFor`) -/
+section SixthWave
+open ShellOp.BindingLookup
+
+theorem snapshotsFor_mem {α : Type} [DecidableEq α] (binds : List (KBind α)) (has : Nat → Bool) (name : α) (m : Nat)
+    (h : snapshotsFor binds has name = some m) :
+    ∃ b ∈ binds, b.name = name ∧ b.monitor = m ∧ has m = true := by
+  induction binds with
+  | nil => simp [snapshotsFor] at h
+  | cons b rest ih =>
+    unfold snapshotsFor at h
+    by_cases hn : name = b.name
+    · by_cases hh : has b.monitor = true
+      · simp [hn, hh] at h
+        exact ⟨b, by simp, hn.symm, h, h ▸ hh⟩
+      · simp [hn, hh] at h
+        obtain ⟨c, hc, h1, h2, h3⟩ := ih (by simpa [hn] using h)
+        exact ⟨c, by simp [hc], h1, h2, h3⟩
+    · simp [hn] at h
+      obtain ⟨c, hc, h1, h2, h3⟩ := ih h
+      exact ⟨c, by simp [hc], h1, h2, h3⟩
+
+theorem snapshotsFor_none {α : Type} [DecidableEq α] (binds : List (KBind α)) (has : Nat → Bool) (name : α)
+    (h : snapshotsFor binds has name = none) :
+    ∀ b ∈ binds, b.name = name → has b.monitor = false := by
+  induction binds with
+  | nil => simp
+  | cons b rest ih =>
+    unfold snapshotsFor at h
+    intro c hc hcn
+    by_cases hn : name = b.name
+    · by_cases hh : has b.monitor = true
+      · simp [hn, hh] at h
+      · simp [hn, hh] at h
+        rcases List.mem_cons.mp hc with rfl | hc'
+        · simpa using hh
+        · exact ih (by simpa [hn] using h) c hc' hcn
+    · simp [hn] at h
+      rcases List.mem_cons.mp hc with rfl | hc'
+      · exact absurd hcn.symm hn
+      · exact ih h c hc' hcn
+
+/-- **C02.9a `snapshots_for_that_binding`** For every list of kubernetes bindings whose names are
+pairwise different (as byte strings — nothing else is assumed about them: they may be equal after
+case mapping, trimming, normalising …), every set of registered monitors and every binding `b` of
+the list whose monitor is registered: the list handed out under the name of `b` is read from the
+monitor of `b` — "every list under `snapshots` contains the objects matching THAT binding". -/
+theorem snapshots_for_that_binding {α : Type} [DecidableEq α] (binds : List (KBind α)) (has : Nat → Bool)
+    (hnd : (binds.map (·.name)).Nodup) (b : KBind α) (hb : b ∈ binds) (hh : has b.monitor = true) :
+    snapshotsFor binds has b.name = some b.monitor := by
+  induction binds with
+  | nil => simp at hb
+  | cons c rest ih =>
+    simp only [List.map_cons, List.nodup_cons] at hnd
+    unfold snapshotsFor
+    rcases List.mem_cons.mp hb with rfl | hb'
+    · simp [hh]
+    · have hne : b.name ≠ c.name := by
+        intro he
+        exact hnd.1 (he ▸ List.mem_map.mpr ⟨b, hb', rfl⟩)
+      simp [hne]
+      exact ih hnd.2 hb'
+
+/-- **C02.9b `snapshots_for_unknown`** a name no binding carries (whatever it is similar to) reads
+nothing: the key gets the empty list. -/
+theorem snapshots_for_unknown {α : Type} [DecidableEq α] (binds : List (KBind α)) (has : Nat → Bool) (name : α)
+    (h : ∀ b ∈ binds, b.name ≠ name) : snapshotsFor binds has name = none := by
+  cases hs : snapshotsFor binds has name with
+  | none => rfl
+  | some m =>
+    obtain ⟨b, hb, hn, _⟩ := snapshotsFor_mem binds has name m hs
+    exact absurd hn (h b hb)
+
+/-- **C02.9c `oracle_lookup_sound`** the predicate the driver evaluates on `oracle lookup` lines holds
+of the model's `SnapshotsFor` for every configuration (no uniqueness needed). -/
+theorem oracle_lookup_sound {α : Type} [DecidableEq α] (binds : List (KBind α)) (has : Nat → Bool) (name : α) :
+    lookupExact binds has name (snapshotsFor binds has name) = true := by
+  cases hs : snapshotsFor binds has name with
+  | some m =>
+    obtain ⟨b, hb, hn, hm, hh⟩ := snapshotsFor_mem binds has name m hs
+    simp only [lookupExact, List.any_eq_true]
+    exact ⟨b, hb, by simp [hn, hm, hh]⟩
+  | none =>
+    have h := snapshotsFor_none binds has name hs
+    simp only [lookupExact, List.all_eq_true]
+    intro b hb
+    by_cases hn : b.name = name
+    · simp [hn, h b hb hn]
+    · simp [hn]
+
+/-- **C02.9d `lookup_exact_determines`** with pairwise different names the oracle leaves no freedom:
+an observation it accepts is the monitor of the one binding with that name. -/
+theorem lookup_exact_determines {α : Type} [DecidableEq α] (binds : List (KBind α)) (has : Nat → Bool)
+    (hnd : (binds.map (·.name)).Nodup) (name : α) (got : Option Nat)
+    (h : lookupExact binds has name got = true) : got = snapshotsFor binds has name := by
+  cases got with
+  | some m =>
+    simp only [lookupExact, List.any_eq_true] at h
+    obtain ⟨b, hb, hc⟩ := h
+    simp only [Bool.and_eq_true, decide_eq_true_eq, beq_iff_eq] at hc
+    obtain ⟨⟨hn, hm⟩, hh⟩ := hc
+    have := snapshots_for_that_binding binds has hnd b hb (hm ▸ hh)
+    rw [← hn, this, hm]
+  | none =>
+    simp only [lookupExact, List.all_eq_true] at h
+    cases hs : snapshotsFor binds has name with
+    | none => rfl
+    | some m =>
+      obtain ⟨b, hb, hn, hm, hh⟩ := snapshotsFor_mem binds has name m hs
+      have := h b hb
+      simp [hn, hm, hh] at this
+
+/-- **C02.9e `update_snapshots_that_binding`** the two pieces of glue composed: when each
+`SnapshotsFor` call of one `UpdateSnapshots` resolves the name as the code does and reads that
+monitor (`monSnap m t` = `Snapshot()` of monitor `m` at the time of call `t`), every non-empty list
+the execution shows for a binding name — under `snapshots` of any context, as `objects` of a
+Synchronization — is a snapshot of the monitor of THE binding with that name. -/
+theorem update_snapshots_that_binding (hb : HookBindings) (binds : List (KBind Nat)) (has : Nat → Bool)
+    (hnd : (binds.map (·.name)).Nodup) (monSnap : Nat → Nat → Snap) (ctx : List BC) :
+    let read : Nat → Nat → Option Snap := fun n t => (snapshotsFor binds has n).map (fun m => monSnap m t)
+    ∃ (view : Nat → Snap),
+      AllOk hb view ctx (updateSnapshots hb read ctx) ∧
+      ∀ n, view n = [] ∨ ∃ t, ∃ b ∈ binds, b.name = n ∧ has b.monitor = true ∧ view n = monSnap b.monitor t ∧
+        ∀ b' ∈ binds, b'.name = n → b' = b := by
+  intro read
+  obtain ⟨view, st, hok, _, _, hv⟩ := update_snapshots_consistent hb read ctx
+  refine ⟨view, hok, fun n => ?_⟩
+  rcases hv n with h | ⟨t, _, ht⟩
+  · left; exact h
+  · right
+    simp only [read] at ht
+    cases hs : snapshotsFor binds has n with
+    | none => simp [hs] at ht
+    | some m =>
+      simp [hs] at ht
+      obtain ⟨b, hbm, hn, hm, hh⟩ := snapshotsFor_mem binds has n m hs
+      refine ⟨t, b, hbm, hn, hm ▸ hh, by rw [hm]; exact ht.symm, fun b' hb' hn' => ?_⟩
+      -- pairwise different names: the binding is unique
+      have key : ∀ (l : List (KBind Nat)), (l.map (·.name)).Nodup → ∀ x ∈ l, ∀ y ∈ l, x.name = y.name → x = y := by
+        intro l
+        induction l with
+        | nil => intro _ x hx; simp at hx
+        | cons c rest ih =>
+          intro hnd x hx y hy hxy
+          simp only [List.map_cons, List.nodup_cons] at hnd
+          rcases List.mem_cons.mp hx with rfl | hx' <;> rcases List.mem_cons.mp hy with rfl | hy'
+          · rfl
+          · exact absurd (List.mem_map.mpr ⟨y, hy', hxy.symm⟩) hnd.1
+          · exact absurd (List.mem_map.mpr ⟨x, hx', hxy⟩) hnd.1
+          · exact ih hnd.2 x hx' y hy' hxy
+      exact key binds hnd b' hb' b hbm (hn'.trans hn.symm)
+
+/-- non-vacuity: two bindings whose names differ only in case, both registered: each name reads its
+own monitor, a third spelling reads nothing. -/
+example :
+    let binds : List (KBind String) := [⟨"settings", 1⟩, ⟨"Settings", 2⟩]
+    snapshotsFor binds (fun _ => true) "settings" = some 1 ∧
+    snapshotsFor binds (fun _ => true) "Settings" = some 2 ∧
+    snapshotsFor binds (fun _ => true) "SETTINGS" = none ∧
+    (binds.map (·.name)).Nodup := by decide
+
+/-- ASCII lower-casing of a name given as its bytes -/
+def lowerBytes (l : List Nat) : List Nat := l.map (fun c => if 65 ≤ c ∧ c ≤ 90 then c + 32 else c)
+
+/-- Witness (names compared after lower-casing — not the code): of the two bindings `set` and `Set`
+(bytes) the later one is handed the other binding's monitor; the oracle rejects that observation. -/
+theorem folded_lookup_witness :
+    let binds : List (KBind (List Nat)) := [⟨[115, 101, 116], 1⟩, ⟨[83, 101, 116], 2⟩]
+    snapshotsForBy lowerBytes binds (fun _ => true) [83, 101, 116] = some 1 ∧
+    snapshotsFor binds (fun _ => true) [83, 101, 116] = some 2 ∧
+    lookupExact binds (fun _ => true) [83, 101, 116] (some 1) = false ∧
+    lookupExact binds (fun _ => true) [83, 101, 116] (some 2) = true := by
+  decide
+
+/-- **C02.9f `restart_late_cleanup_serves`** a restarted informer — same binding, same factory index,
+a fresh informer id, as `newResourceInformer` draws it — is served for EVERY order of the two
+goroutines involved: the clean-up of the old informer (`FactoryStore.Stop old`) may run at any
+point, before or after the new informer has registered, any number of other informers come and go. -/
+theorem restart_late_cleanup_serves (pre mid post : List FOp) (old new : Nat) (idx : Key)
+    (hne : old ≠ new) (hmid : FOp.stop new idx ∉ mid) (hpost : FOp.stop new idx ∉ post) :
+    fsServed (fsRun [] (pre ++ [.start new idx] ++ (mid ++ [.stop old idx] ++ post))) new idx = true := by
+  apply factory_store_serves_users
+  intro hm
+  simp only [List.mem_append, List.mem_cons, List.not_mem_nil, or_false] at hm
+  rcases hm with (hm | hm) | hm
+  · exact hmid hm
+  · injection hm with h1 _; exact hne h1.symm
+  · exact hpost hm
+
+/-- Witness (the informer id is a function of monitor id, namespace and name — not the code): the
+restarted informer carries the id of the one it replaces; when the old clean-up runs after the new
+registration it removes the new handler and the factory with it. In the other order nothing shows. -/
+theorem same_id_restart_witness :
+    let x : Key := ⟨1, 1, 0⟩
+    fsServed (fsRun [] [.start 7 x, .start 7 x, .stop 7 x]) 7 x = false ∧
+    fsServed (fsRun [] [.start 7 x, .stop 7 x, .start 7 x]) 7 x = true ∧
+    fsServed (fsRun [] [.start 7 x, .start 8 x, .stop 7 x]) 8 x = true := by decide
+
+
+end SixthWave
 
 end ShellOp.Snapshot.C02
